@@ -68,6 +68,39 @@ U_FIELDS = [
 ]
 
 
+# statement order of marshal_one_fiber / unmarshal_one_fiber (every child visit at flags + 1)
+F_FIELDS = [
+    ("stackcheck", r"^\{\s*MARSH_STACKCHECK\s*;"),
+    ("haschild", r"if\s*\(\s*fiber->child\s*\)\s*fflags\s*\|=\s*JANET_FIBER_FLAG_HASCHILD\s*;"),
+    ("hasenv", r"if\s*\(\s*fiber->env\s*\)\s*fflags\s*\|=\s*JANET_FIBER_FLAG_HASENV\s*;"),
+    ("header", r"pushint\s*\(\s*st\s*,\s*fflags\s*\)\s*;\s*pushint\s*\(\s*st\s*,\s*fiber->frame\s*\)\s*;\s*pushint\s*\(\s*st\s*,\s*fiber->stackstart\s*\)\s*;\s*pushint\s*\(\s*st\s*,\s*fiber->stacktop\s*\)\s*;\s*pushint\s*\(\s*st\s*,\s*fiber->maxstack\s*\)\s*;"),
+    ("loop", r"int32_t\s+i\s*=\s*fiber->frame\s*;\s*int32_t\s+j\s*=\s*fiber->stackstart\s*-\s*JANET_FRAME_SIZE\s*;\s*while\s*\(\s*i\s*>\s*0\s*\)\s*\{"),
+    ("frame-hasenv", r"if\s*\(\s*frame->env\s*\)\s*frame->flags\s*\|=\s*JANET_STACKFRAME_HASENV\s*;"),
+    ("frame-ints", r"pushint\s*\(\s*st\s*,\s*frame->flags\s*\)\s*;\s*pushint\s*\(\s*st\s*,\s*frame->prevframe\s*\)\s*;\s*int32_t\s+pcdiff\s*=\s*\(int32_t\)\s*\(\s*frame->pc\s*-\s*frame->func->def->bytecode\s*\)\s*;\s*pushint\s*\(\s*st\s*,\s*pcdiff\s*\)\s*;"),
+    ("frame-func", r"marshal_one\s*\(\s*st\s*,\s*janet_wrap_function\s*\(\s*frame->func\s*\)\s*,\s*flags\s*\+\s*1\s*\)\s*;"),
+    ("frame-env", r"if\s*\(\s*frame->env\s*\)\s*marshal_one_env\s*\(\s*st\s*,\s*frame->env\s*,\s*flags\s*\+\s*1\s*\)\s*;"),
+    ("frame-slots", r"for\s*\(\s*int32_t\s+k\s*=\s*i\s*;\s*k\s*<\s*j\s*;\s*k\+\+\s*\)\s*marshal_one\s*\(\s*st\s*,\s*fiber->data\[k\]\s*,\s*flags\s*\+\s*1\s*\)\s*;\s*j\s*=\s*i\s*-\s*JANET_FRAME_SIZE\s*;\s*i\s*=\s*frame->prevframe\s*;"),
+    ("env", r"if\s*\(\s*fiber->env\s*\)\s*\{\s*marshal_one\s*\(\s*st\s*,\s*janet_wrap_table\s*\(\s*fiber->env\s*\)\s*,\s*flags\s*\+\s*1\s*\)\s*;\s*\}"),
+    ("child", r"if\s*\(\s*fiber->child\s*\)\s*marshal_one\s*\(\s*st\s*,\s*janet_wrap_fiber\s*\(\s*fiber->child\s*\)\s*,\s*flags\s*\+\s*1\s*\)\s*;"),
+    ("last", r"marshal_one\s*\(\s*st\s*,\s*fiber->last_value\s*,\s*flags\s*\+\s*1\s*\)\s*;"),
+]
+FU_FIELDS = [
+    ("push", r"janet_v_push\s*\(\s*st->lookup\s*,\s*janet_wrap_fiber\s*\(\s*fiber\s*\)\s*\)\s*;"),
+    ("header", r"int32_t\s+fiber_flags\s*=\s*readint\s*\(\s*st\s*,\s*&data\s*\)\s*;\s*int32_t\s+frame\s*=\s*readnat\s*\(\s*st\s*,\s*&data\s*\)\s*;\s*int32_t\s+fiber_stackstart\s*=\s*readnat\s*\(\s*st\s*,\s*&data\s*\)\s*;\s*int32_t\s+fiber_stacktop\s*=\s*readnat\s*\(\s*st\s*,\s*&data\s*\)\s*;\s*int32_t\s+fiber_maxstack\s*=\s*readnat\s*\(\s*st\s*,\s*&data\s*\)\s*;"),
+    ("setup-check", r"if\s*\(\s*\(int32_t\)\s*\(\s*frame\s*\+\s*JANET_FRAME_SIZE\s*\)\s*>\s*fiber_stackstart\s*\|\|\s*fiber_stackstart\s*>\s*fiber_stacktop\s*\|\|\s*fiber_stacktop\s*>\s*fiber_maxstack\s*\)"),
+    ("loop", r"int32_t\s+stack\s*=\s*frame\s*;\s*int32_t\s+stacktop\s*=\s*fiber_stackstart\s*-\s*JANET_FRAME_SIZE\s*;\s*while\s*\(\s*stack\s*>\s*0\s*\)\s*\{"),
+    ("frame-ints", r"int32_t\s+frameflags\s*=\s*readint\s*\(\s*st\s*,\s*&data\s*\)\s*;\s*int32_t\s+prevframe\s*=\s*readnat\s*\(\s*st\s*,\s*&data\s*\)\s*;\s*int32_t\s+pcdiff\s*=\s*readnat\s*\(\s*st\s*,\s*&data\s*\)\s*;"),
+    ("frame-func", r"data\s*=\s*unmarshal_one\s*\(\s*st\s*,\s*data\s*,\s*&funcv\s*,\s*flags\s*\+\s*1\s*\)\s*;"),
+    ("frame-env", r"if\s*\(\s*frameflags\s*&\s*JANET_STACKFRAME_HASENV\s*\)\s*\{\s*frameflags\s*&=\s*~JANET_STACKFRAME_HASENV\s*;\s*data\s*=\s*unmarshal_one_env\s*\(\s*st\s*,\s*data\s*,\s*&env\s*,\s*flags\s*\+\s*1\s*\)\s*;\s*\}"),
+    ("frame-align", r"if\s*\(\s*\(int32_t\)\s*\(\s*prevframe\s*\+\s*JANET_FRAME_SIZE\s*\)\s*>\s*stack\s*\)"),
+    ("frame-slots", r"for\s*\(\s*int32_t\s+i\s*=\s*stack\s*;\s*i\s*<\s*stacktop\s*;\s*i\+\+\s*\)\s*data\s*=\s*unmarshal_one\s*\(\s*st\s*,\s*data\s*,\s*fiber->data\s*\+\s*i\s*,\s*flags\s*\+\s*1\s*\)\s*;"),
+    ("frame-next", r"stacktop\s*=\s*stack\s*-\s*JANET_FRAME_SIZE\s*;\s*stack\s*=\s*prevframe\s*;"),
+    ("env", r"if\s*\(\s*fiber_flags\s*&\s*JANET_FIBER_FLAG_HASENV\s*\)\s*\{\s*Janet\s+envv\s*;\s*fiber_flags\s*&=\s*~JANET_FIBER_FLAG_HASENV\s*;\s*data\s*=\s*unmarshal_one\s*\(\s*st\s*,\s*data\s*,\s*&envv\s*,\s*flags\s*\+\s*1\s*\)\s*;"),
+    ("child", r"if\s*\(\s*fiber_flags\s*&\s*JANET_FIBER_FLAG_HASCHILD\s*\)\s*\{\s*Janet\s+fiberv\s*;\s*fiber_flags\s*&=\s*~JANET_FIBER_FLAG_HASCHILD\s*;\s*data\s*=\s*unmarshal_one\s*\(\s*st\s*,\s*data\s*,\s*&fiberv\s*,\s*flags\s*\+\s*1\s*\)\s*;"),
+    ("last", r"data\s*=\s*unmarshal_one\s*\(\s*st\s*,\s*data\s*,\s*&fiber->last_value\s*,\s*flags\s*\+\s*1\s*\)\s*;"),
+]
+
+
 def _ordered(body, fields, what):
     """every regex matches exactly once and in the listed order; returns the match objects"""
     pos, out = -1, {}
@@ -163,6 +196,22 @@ def extract(tree):
     if _inc(m, 1) != _inc(m, 2):
         raise ExtractError("unmarshal_one_env: fiber and values are read at different depths")
     inc["uIncEnvVal"] = _inc(m, 1)
+    # fibers: wire-only flag bits and the frame size
+    m1 = re.search(r"#define\s+JANET_FIBER_FLAG_HASCHILD\s+\(\s*1\s*<<\s*(\d+)\s*\)", src)
+    m2 = re.search(r"#define\s+JANET_FIBER_FLAG_HASENV\s+\(\s*1\s*<<\s*(\d+)\s*\)", src)
+    m3 = re.search(r"#define\s+JANET_STACKFRAME_HASENV\s+\(\s*INT32_MIN\s*\)", src)
+    m4 = re.search(r"#define\s+JANET_FRAME_SIZE\s+(\d+)", hdr)
+    if not (m1 and m2 and m3 and m4):
+        raise ExtractError("fiber wire flags / JANET_FRAME_SIZE not recognised")
+    c["fiberHasChildBit"], c["fiberHasEnvBit"], c["frameSize"] = int(m1.group(1)), int(m2.group(1)), int(m4.group(1))
+    _ordered(csrc.func_body(src, "marshal_one_fiber"), F_FIELDS, "marshal_one_fiber")
+    _ordered(csrc.func_body(src, "unmarshal_one_fiber"), FU_FIELDS, "unmarshal_one_fiber")
+    m = re.search(r"case\s+JANET_FIBER\s*:\s*\{\s*MARK_SEEN\s*\(\s*\)\s*;\s*pushbyte\s*\(\s*st\s*,\s*LB_FIBER\s*\)\s*;\s*marshal_one_fiber\s*\(\s*st\s*,\s*janet_unwrap_fiber\s*\(\s*x\s*\)\s*,\s*flags\s*\+\s*1\s*\)\s*;", mo)
+    if not m:
+        raise ExtractError("marshal_one: case JANET_FIBER not recognised")
+    m = re.search(r"case\s+LB_FIBER\s*:\s*\{\s*JanetFiber\s*\*\s*fiber\s*;\s*data\s*=\s*unmarshal_one_fiber\s*\(\s*st\s*,\s*data\s*\+\s*1\s*,\s*&fiber\s*,\s*flags\s*\+\s*1\s*\)\s*;", uo)
+    if not m:
+        raise ExtractError("unmarshal_one: case LB_FIBER not recognised")
     order_m = [t for t, _ in M_FIELDS]
     order_u = [t for t, _ in U_FIELDS]
     return flags, c, inc, order_m, order_u
@@ -212,6 +261,8 @@ def render(tree):
     out.append("\n/-- limits tested by unmarshal_one_def / case LB_FUNCTION -/")
     for k, v in c.items():
         out.append("abbrev %s : Nat := %d" % (k, v))
+    out.append("abbrev fiberHasChild : Int := %d" % (1 << c["fiberHasChildBit"]))
+    out.append("abbrev fiberHasEnv : Int := %d" % (1 << c["fiberHasEnvBit"]))
     out.append("\n/-- recursion-depth increment of every call between marshal_one / marshal_one_def / marshal_one_env (m...) and between")
     out.append("their unmarshal counterparts (u...): 1 = `flags + 1`, 0 = `flags` -/")
     for k in sorted(inc):
